@@ -20,6 +20,24 @@ func init() {
 			}
 			return Tuple{uint64(len(b)), Iface{}}
 		}
+
+		// math/rand/v2.IntN(n): any value in [0,n). Natively the real generator runs; harnesses
+		// must state their claims for every possible pick and not observe the pick itself.
+		n["math/rand/v2.IntN"] = func(x *Exec, fr *frame, a []Value) Value {
+			k, ok := a[0].(uint64)
+			if !ok {
+				x.unsupported("rand.IntN with a symbolic bound")
+			}
+			if int64(k) <= 0 {
+				x.tpanic("invalid argument to IntN")
+			}
+			if k == 1 {
+				return uint64(0)
+			}
+			t := x.nondet("math/rand.IntN", 64, "u64")
+			x.addPC(x.st.Cmp(OpUlt, t, x.st.Const(64, k)))
+			return t
+		}
 	})
 }
 
